@@ -36,6 +36,9 @@ Json generate(const std::string& tier, uint64_t seed, uint64_t index) {
     Json fl = Json::array(); fl.push(f);
     sc.set("wfaults", fl); sc.set("stdio_bufsize", bs[rng.below(5)]);
   }
+  // a second writer party (20 %, where the solution fits that interface): the way a driver writes - suffix values reported to an
+  // mp::Problem (optionally after an earlier report for the same suffixes), vectors handed to mp::SolutionWriterImpl::HandleSolution
+  if (!sc.has("wfaults") && rng.chance(0.2)) { sc.set("driver_entry", true); sc.set("driver_entry_history", rng.chance(0.4)); }
   // a second reader party: the library's own handler behind NLSolver::ReadSolution() (the "easy" API), for a model whose
   // columns are of mixed classes, so that the file's NL order is a proper permutation of the caller's order
   if (s.nvars > 0 && s.nlcons == 0 && rng.chance(0.25)) {
@@ -126,7 +129,13 @@ sim::RunResult run(const Json& sc) {
 
   std::string werr;
   const bool wfaulted = sc.has("wfaults");
-  SimRun sw = wfaulted ? sim_session(sc["wfaults"], 200000, [&] { werr = write_sol_real(s, path); }, sc["stdio_bufsize"].as_int(0))
+  bool driver_entry = sc["driver_entry"].as_bool();
+  if (driver_entry) {
+    std::string w0;
+    SimRun s0 = sim_session(nofaults, 200000, [&] { w0 = write_sol_driver_entry(s, sim::scratch_dir() + "stub", sc["driver_entry_history"].as_bool()); });
+    if (w0 == "skip" || s0.exited) driver_entry = false; else { werr = w0; bump(st, "writer_entry.driver"); if (sc["driver_entry_history"].as_bool()) bump(st, "writer_entry.driver_with_history"); }
+  }
+  SimRun sw = driver_entry ? SimRun() : wfaulted ? sim_session(sc["wfaults"], 200000, [&] { werr = write_sol_real(s, path); }, sc["stdio_bufsize"].as_int(0))
                        : sim_session(nofaults, 200000, [&] { werr = write_sol_real(s, path); });
   std::string bytes;
   sim::read_file(path, bytes);
